@@ -76,6 +76,8 @@ fn expect(native: &[u64], b: Book, op: &Op) -> (Obs, Book, usize) {
 
 struct Exec<'a> {
     ctx: &'a Ctx,
+    /// pool written through the hook before the first operation (value-directed start states)
+    init_pool: Option<u64>,
     rounds: u8,
     per_word: usize,
     native: &'a [u64],
@@ -84,7 +86,7 @@ struct Exec<'a> {
 
 impl<'a> Exec<'a> {
     fn replay_json(&self, hist: &[Step]) -> Value {
-        json!({"kind":"jitter-c16","rounds":self.rounds,"steps":hist.iter().map(|s| s.short()).collect::<Vec<_>>(),"readings_head":&self.readings[..16.min(self.readings.len())],"readings_len":self.readings.len()})
+        json!({"kind":"jitter-c16","rounds":self.rounds,"init_pool":self.init_pool.map(|p| format!("{:#x}", p)),"steps":hist.iter().map(|s| s.short()).collect::<Vec<_>>(),"readings_head":&self.readings[..16.min(self.readings.len())],"readings_len":self.readings.len()})
     }
 
     /// one output call on `g`, checked against the statement
@@ -150,6 +152,9 @@ impl<'a> Exec<'a> {
         let script = TimerScript::new(self.readings.to_vec());
         let mut g = reg.jitter_forking(script);
         g.jitter().unwrap().set_rounds(self.rounds);
+        if let Some(p) = self.init_pool {
+            g.jitter().unwrap().set_pool(p);
+        }
         let mut b = Book { k: 0, half: false };
         counters.executions += 1;
         for (i, st) in hist.iter().enumerate() {
@@ -215,7 +220,7 @@ pub fn run(reg: &dyn Registry, ctx: &Ctx) -> Outcome {
             let (mut g, _) = jitter_env::jitter_with(reg, readings.clone(), Some(rounds));
             (0..max_words).map(|_| g.next_u64()).collect()
         };
-        let ex = Exec { ctx, rounds, per_word: jitter_env::readings_per_word(rounds), native: &native, readings: &readings };
+        let ex = Exec { ctx, init_pool: None, rounds, per_word: jitter_env::readings_per_word(rounds), native: &native, readings: &readings };
         // all histories of exactly `depth` steps (every prefix is checked along the way)
         let n = alphabet.len();
         let count = n.pow(depth as u32);
@@ -243,6 +248,52 @@ pub fn run(reg: &dyn Registry, ctx: &Ctx) -> Outcome {
         ctx.add("states", count as u64);
         if rounds == 2 {
             ctx.sample(json!({"rounds": rounds, "depth": depth, "alphabet": alphabet.iter().map(|s| s.short()).collect::<Vec<_>>(), "readings_per_collection": ex.per_word}));
+        }
+    }
+
+    // value-directed start states: pools (hook + linear solve) for which the first collected value is
+    // special - zero, a zero upper/lower half, all ones, a single bit
+    for rounds in [1u8, 3] {
+        let depth = 3;
+        let max_words = depth * 2 + 2;
+        let readings = jitter_env::benign_readings(ctx.seed ^ 0x16CC ^ ((rounds as u64) << 16), rounds, max_words, 8);
+        for &target in jitter_env::SPECIAL_WORDS.iter() {
+            let Some(p) = jitter_env::solve_pool_for_first_output(reg, &readings, rounds, target) else { continue };
+            let native: Vec<u64> = {
+                let (mut g, _) = jitter_env::jitter_with(reg, readings.clone(), Some(rounds));
+                g.jitter().unwrap().set_pool(p);
+                (0..max_words).map(|_| g.next_u64()).collect()
+            };
+            if native[0] != target {
+                ctx.machinery("value-directed pool did not produce the target value");
+                continue;
+            }
+            let ex = Exec { ctx, init_pool: Some(p), rounds, per_word: jitter_env::readings_per_word(rounds), native: &native, readings: &readings };
+            let n = alphabet.len();
+            let count = n.pow(depth as u32);
+            let cs: Vec<Counters> = (0..count)
+                .into_par_iter()
+                .map(|mut idx| {
+                    let mut hist = Vec::with_capacity(depth);
+                    for _ in 0..depth {
+                        hist.push(alphabet[idx % n].clone());
+                        idx /= n;
+                    }
+                    let mut c = Counters::default();
+                    ex.run(reg, &hist, &mut c);
+                    c
+                })
+                .collect();
+            for c in cs {
+                total.executions += c.executions;
+                total.transitions += c.transitions;
+                total.with_half_pending += c.with_half_pending;
+                total.pending_half_discarded += c.pending_half_discarded;
+                total.clones_with_half_pending += c.clones_with_half_pending;
+                total.known_corner += c.known_corner;
+            }
+            ctx.add("states", count as u64);
+            ctx.add("value_directed_starts", 1);
         }
     }
 
